@@ -296,6 +296,11 @@ func TestVerif(t *testing.T) {
 			cfgs = append(cfgs, c)
 		}
 	}
+	// "every limit ... accepted by validation": limits at and beyond the 32-bit byte boundary (4 GiB), one GC-interval setting
+	for _, lim := range []c18Cfg{{Limit: 4095, Spike: 1}, {Limit: 4096, Spike: 1024}, {Limit: 8192, Spike: 0}, {Limit: 6000, Spike: 4096}, {Limit: 1 << 20, Spike: 1 << 19}} {
+		lim.SoftIvMs, lim.HardIvMs = 10500, 5500
+		cfgs = append(cfgs, lim)
+	}
 	depth := ctx.Param("depth", 3)
 	var steps []c18Step
 	for r := 0; r < 5; r++ {
